@@ -141,4 +141,57 @@ theorem nonnegCells_sound (p : List ℚ) (a h : ℚ) (n : Nat) (hn : 0 < n) (hh 
       · push_cast; linarith
       · push_cast; push_cast at hxb; linarith
 
+/-- adaptive version of one cell: accept the interval bound, or bisect (at most `d` times) -/
+def nonnegAdapt (p : List ℚ) (a h : ℚ) : Nat → Bool
+  | 0 => decide (0 ≤ lb (shiftP p a) h)
+  | d + 1 => decide (0 ≤ lb (shiftP p a) h) || (nonnegAdapt p a (h / 2) d && nonnegAdapt p (a + h / 2) (h / 2) d)
+
+theorem nonnegAdapt_sound (p : List ℚ) (a h : ℚ) (d : Nat) (hh : 0 ≤ h) (hc : nonnegAdapt p a h d = true)
+    (x : ℝ) (hxa : (a:ℝ) ≤ x) (hxb : x ≤ (a:ℝ) + (h:ℝ)) : 0 ≤ evalR p x := by
+  have base : ∀ (a h : ℚ), 0 ≤ lb (shiftP p a) h → ∀ x : ℝ, (a:ℝ) ≤ x → x ≤ (a:ℝ) + (h:ℝ) → 0 ≤ evalR p x := by
+    intro a h hl x hxa hxb
+    have h0 : (0:ℝ) ≤ ((lb (shiftP p a) h : ℚ) : ℝ) := by exact_mod_cast hl
+    have := lb_le (shiftP p a) h (x - a) (by linarith) (by linarith)
+    rw [evalR_shiftP] at this
+    have e : (a:ℝ) + (x - a) = x := by ring
+    rw [e] at this
+    linarith
+  induction d generalizing a h with
+  | zero =>
+    simp only [nonnegAdapt, decide_eq_true_eq] at hc
+    exact base a h hc x hxa hxb
+  | succ d ih =>
+    simp only [nonnegAdapt, Bool.or_eq_true, Bool.and_eq_true, decide_eq_true_eq] at hc
+    rcases hc with hc | ⟨h1, h2⟩
+    · exact base a h hc x hxa hxb
+    · have hh2 : (0:ℚ) ≤ h / 2 := by positivity
+      by_cases hx : x ≤ (a:ℝ) + ((h / 2 : ℚ) : ℝ)
+      · exact ih a (h / 2) hh2 h1 hxa hx
+      · have hx' := le_of_lt (not_le.mp hx)
+        apply ih (a + h / 2) (h / 2) hh2 h2
+        · push_cast; push_cast at hx'; linarith
+        · push_cast; linarith
+
+/-- `n` consecutive cells, each checked adaptively with bisection depth `d` -/
+def nonnegCellsA (p : List ℚ) (a h : ℚ) (d : Nat) : Nat → Bool
+  | 0 => true
+  | n + 1 => nonnegAdapt p a h d && nonnegCellsA p (a + h) h d n
+
+theorem nonnegCellsA_sound (p : List ℚ) (a h : ℚ) (d n : Nat) (hn : 0 < n) (hh : 0 ≤ h) (hc : nonnegCellsA p a h d n = true)
+    (x : ℝ) (hxa : (a:ℝ) ≤ x) (hxb : x ≤ (a:ℝ) + n * (h:ℝ)) : 0 ≤ evalR p x := by
+  induction n generalizing a with
+  | zero => omega
+  | succ n ih =>
+    simp only [nonnegCellsA, Bool.and_eq_true] at hc
+    by_cases hx : x ≤ (a:ℝ) + (h:ℝ)
+    · exact nonnegAdapt_sound p a h d hh hc.1 x hxa hx
+    · have hx' := le_of_lt (not_le.mp hx)
+      have hn' : 0 < n := by
+        rcases Nat.eq_zero_or_pos n with h0 | h0
+        · subst h0; simp at hxb; linarith
+        · exact h0
+      apply ih (a + h) hn' hc.2
+      · push_cast; linarith
+      · push_cast; push_cast at hxb; linarith
+
 end PolyCert
